@@ -592,6 +592,41 @@ pub fn run_c02(run: &mut Run) -> anyhow::Result<()> {
     for sc in 0..nscen {
         concurrent_scenario(run, &mut rng, sc as u64)?;
     }
+    // (c) deadlines configured for the OTHER direction must not touch an RPC: the caller's inbound default
+    // and the callee's outbound default are short, the handler is slower than both, and the caller must
+    // still get exactly the handler's answer
+    for case in 0..(if run.quick() { 4 } else { 60 }) {
+        let seed = run.seed ^ 0x02c ^ ((case as u64) << 24);
+        let short = 100 + 50 * (case as u64 % 4);
+        let need = short * 3 + 200;
+        let rt = paused_rt();
+        let res: anyhow::Result<(String, bool, u64)> = rt.block_on(async move {
+            let fabric = Fabric::new(seed);
+            let mut ca: Config = config_idle(60_000);
+            ca.inbound_request_timeout_ms = Some(short);
+            let mut cb: Config = config_idle(60_000);
+            cb.outbound_request_timeout_ms = Some(short);
+            let a = start_node(&fabric, seed, 1, ca)?;
+            let b = start_node(&fabric, seed, 2, cb)?;
+            let p = a.net.connect(b.addr).await?;
+            let body = vec![7u8; 300 + case];
+            let r = tokio::time::timeout(Duration::from_secs(30), a.net.rpc(p, Request::new(Bytes::from(body.clone())).with_header("x-id", "dir").with_header("x-sleep-ms", need.to_string()))).await;
+            let calls = b.svc.calls.load(Ordering::SeqCst);
+            Ok(match r {
+                Ok(Ok(resp)) => (format!("status-{}", resp.status().to_u16()), resp.body().as_ref() == expected_response_body("dir", &body).as_slice(), calls),
+                Ok(Err(e)) => (format!("error:{e:#}"), false, calls),
+                Err(_) => ("hang".into(), false, calls),
+            })
+        });
+        drop(rt);
+        let (class, body_ok, calls) = res?;
+        run.eval(&format!("other-direction-deadlines {case}"), true);
+        run.count("other-direction-deadlines", &class);
+        if class != "status-200" || !body_ok || calls != 1 {
+            run.oracle_fail(json!({"kind": "an RPC did not return the response its handler produced: deadlines configured for the other direction (caller's inbound default, callee's outbound default) interfered",
+                "observed": class, "body_is_the_handlers": body_ok, "handler_invocations": calls, "short_deadline_ms": short, "handler_needs_ms": need}));
+        }
+    }
     Ok(())
 }
 
